@@ -13,6 +13,8 @@
 #include <gnu_gama/adj/adj_chol.h>
 #include <gnu_gama/adj/adj_gso.h>
 #include <gnu_gama/adj/adj_svd.h>
+#include <matvec/svd.h>
+#include <gnu_gama/sparse/intlist.h>
 #include <gnu_gama/exception.h>
 
 #include <memory>
@@ -29,7 +31,7 @@ typedef GNU_gama::AdjBaseSparse<double, int, matvec, GNU_gama::AdjInputData> ASp
 
 namespace {
 
-const char* ALG[] = {"envelope", "cholesky", "gso", "svd"};
+const char* ALG[] = {"envelope", "cholesky", "gso", "svd", "rawsvd"};
 
 // ------------------------------------------------------------ problems ------
 // A seeded least-squares problem with an unambiguous rank: built from small
@@ -150,8 +152,28 @@ template <class F> static Val guarded(F f)
   return r;
 }
 
+// lib/matvec's SVD driven directly, the way pinv() and user code drive it: no solution cached outside the class, so
+// what SVD::min_x / reset do to an already decomposed matrix is observable (AdjSVD re-decomposes after every min_x)
+class RawSVD : public ABase {
+public:
+  void reset(const RMat& A, const RVec& b) { pA = &A; pb = &b; svd.reset(A); }
+  const RVec& unknowns() override { svd.solve(*pb, x); return x; }
+  const RVec& residuals() override { svd.solve(*pb, x); r = *pA * x; r -= *pb; return r; }
+  double sum_of_squares() override { const RVec& v = residuals(); return v.dot(v); }
+  int defect() override { return svd.nullity(); }
+  double q_xx(int i, int j) override { return svd.q_xx(i, j); }
+  double q_bb(int i, int j) override { return svd.q_bb(i, j); }
+  double q_bx(int i, int j) override { return svd.q_bx(i, j); }
+  bool lindep(int i) override { return svd.lindep(i); }
+  void min_x() override { svd.min_x(); }
+  void min_x(int n, int l[]) override { svd.min_x(n, l); }
+private:
+  GNU_gama::SVD<double, int, matvec> svd; const RMat* pA = nullptr; const RVec* pb = nullptr; RVec x, r;
+};
+
 static ABase* new_solver(int alg)
 {
+  if (alg == 4) return new RawSVD;
   switch (alg) {
     case 0: return new GNU_gama::AdjEnvelope<double, int, matvec>;
     case 1: return new GNU_gama::AdjCholDec<double, int, matvec>;
@@ -162,6 +184,7 @@ static ABase* new_solver(int alg)
 
 static void give_input(ABase* s, const Problem& P)
 {
+  if (auto* rs = dynamic_cast<RawSVD*>(s)) { rs->reset(P.A, P.b); return; }
   if (auto* f = dynamic_cast<AFull*>(s)) f->reset(P.A, P.b);
   else if (auto* sp = dynamic_cast<ASparse*>(s)) sp->reset(P.input.get());
 }
@@ -244,7 +267,7 @@ Verdict HistEngine::exec_solvers(const Plan& plan, EventLog& log, Stats& st)
   }
   std::vector<SolverObj> objs(nobj);
   for (int o = 0; o < nobj; o++) {
-    objs[o].alg = (int)plan.geti("alg" + std::to_string(o), 0) % 4;
+    objs[o].alg = (int)plan.geti("alg" + std::to_string(o), 0) % 5;
     objs[o].s.reset(new_solver(objs[o].alg));
     objs[o].input = o % nprob;
     give_input(objs[o].s.get(), *probs[objs[o].input]);
@@ -330,12 +353,92 @@ Verdict HistEngine::exec_solvers(const Plan& plan, EventLog& log, Stats& st)
   return Verdict();
 }
 
+// ---- layer 2: Adj, the entry point of gama-g3 --------------------------------------------------------------------
+// Adj owns its input (set() deletes the previous one), so every set() gets a new copy.  gama-g3 always asks x() first
+// after set() / set_algorithm(); rtr(), defect(), q_xx(), q_bb() read the solver of the last x() (defect() and q_xx()
+// dereference a null pointer before the first x()).  That call order is a precondition of the class, stated the same
+// way for the used object and for the reference: every query is preceded by x().
+static const GNU_gama::Adj::algorithm ADJALG[] = {GNU_gama::Adj::envelope, GNU_gama::Adj::cholesky, GNU_gama::Adj::gso, GNU_gama::Adj::svd};
+
+static GNU_gama::AdjInputData* adj_input(const Problem& P, const std::vector<int>& minx)
+{
+  GNU_gama::AdjInputData* in = P.make_input();
+  if (!minx.empty()) { auto* l = new GNU_gama::IntegerList<>((int)minx.size()); int k = 0; for (int v : minx) (*l)(k++) = v; in->set_minx(l); }
+  return in;
+}
+
+static Val ask_adj(GNU_gama::Adj& a, const std::string& k, int i, int j)
+{
+  return guarded([&](Val& r) {
+    const RVec& x = a.x();
+    if (k == "unk") { for (int n = 1; n <= x.dim(); n++) r.v.push_back(x(n)); }
+    else if (k == "res") { const RVec& v = a.r(); for (int n = 1; n <= v.dim(); n++) r.v.push_back(v(n)); }
+    else if (k == "ssq") r.v.push_back(a.rtr());
+    else if (k == "def") r.v.push_back(a.defect());
+    else if (k == "qxx") r.v.push_back(a.q_xx(i, j));
+    else if (k == "qbb") r.v.push_back(a.q_bb(i, j));
+  });
+}
+
+static Verdict exec_adj(const Plan& plan, EventLog& log, Stats& st)
+{
+  std::vector<std::unique_ptr<Problem>> probs;
+  for (int p = 0; p < 2; p++) { probs.emplace_back(new Problem); build_problem(*probs.back(), (uint64_t)plan.geti("prob" + std::to_string(p), p + 1)); log.line("problem %d M=%d N=%d planted-defect=%d", p, probs.back()->M, probs.back()->N, probs.back()->defect); }
+  struct Obj { std::unique_ptr<GNU_gama::Adj> adj; int input = 0, alg = 0; std::vector<int> minx; int asked = 0; };
+  int nobj = (int)std::max<long long>(1, plan.geti("nobj", 1));
+  std::vector<Obj> objs(nobj);
+  for (int o = 0; o < nobj; o++) {
+    Obj& O = objs[o]; O.adj.reset(new GNU_gama::Adj); O.input = o % 2; O.alg = (int)(plan.geti("alg" + std::to_string(o), 0) % 4);
+    if (plan.geti("minx" + std::to_string(o), 0)) O.minx = make_subset((uint64_t)plan.geti("minx" + std::to_string(o), 0), (int)plan.geti("minxk" + std::to_string(o), 0), probs[O.input]->N);
+    O.adj->set(adj_input(*probs[O.input], O.minx)); O.adj->set_algorithm(ADJALG[O.alg]);
+    log.line("adj %d %s on problem %d minx %zu", o, ALG[O.alg], O.input, O.minx.size());
+  }
+  std::map<std::string, Val> memo;
+  const std::string BADREG = fmt("matvec:%d", (int)GNU_gama::Exception::BadRegularization);
+  int n = 0;
+  for (const Step& s : plan.steps) {
+    Obj& O = objs[(size_t)(s.arg(0) % nobj)]; const Problem& P = *probs[O.input];
+    if (s.op == "alg") { O.alg = (int)(s.arg(1) % 4); O.adj->set_algorithm(ADJALG[O.alg]); log.line("%d a%lld set_algorithm(%s)", n, s.arg(0) % nobj, ALG[O.alg]); st.add("ops.set_algorithm"); st.nontrivial = true; st.state("hist", fmt("adj/set_algorithm/asked%d", std::min(O.asked, 2))); }
+    else if (s.op == "set") {
+      int which = (int)(s.arg(1) % 2); if (which) O.input = 1 - O.input;
+      if (!O.minx.empty()) O.minx = make_subset((uint64_t)s.arg(2) + 1, (int)s.arg(3), probs[O.input]->N);
+      O.adj->set(adj_input(*probs[O.input], O.minx));
+      log.line("%d a%lld set(problem %d)", n, s.arg(0) % nobj, O.input); st.add("ops.set"); st.nontrivial = true; st.state("hist", fmt("adj/set-%s/asked%d", which ? "other" : "same", std::min(O.asked, 2)));
+    } else {
+      static const char* KQ[] = {"unk", "res", "ssq", "def", "qxx", "qbb"};
+      bool known = false; for (auto k : KQ) if (s.op == k) known = true;
+      if (!known) { n++; continue; }
+      Query q = resolve(s.op, s.arg(1), s.arg(2), P);
+      Val used = ask_adj(*O.adj, s.op, q.i, q.j);
+      std::string key = fmt("%d/%d/", O.alg, O.input); for (int v : O.minx) key += std::to_string(v) + ","; key += s.op + fmt("/%d/%d", q.i, q.j);
+      auto it = memo.find(key);
+      if (it == memo.end()) {
+        GNU_gama::Adj f; f.set(adj_input(P, O.minx)); f.set_algorithm(ADJALG[O.alg]);
+        it = memo.emplace(key, ask_adj(f, s.op, q.i, q.j)).first; st.add("fresh_objects");
+      }
+      const Val& ref = it->second;
+      if (O.asked > 0) st.nontrivial = true;
+      O.asked++; st.add("queries");
+      if (!used.exc.empty()) st.add("fault.exception_survived");
+      st.state("hist", fmt("adj/%s/%s/%s/asked%d/%s", ALG[O.alg], s.op.c_str(), P.defect ? "singular" : "regular", std::min(O.asked, 3), used.exc.empty() ? "value" : "throw"));
+      log.line("%d a%lld %s(%d,%d) = %s", n, s.arg(0) % nobj, s.op.c_str(), q.i, q.j, used.str().c_str());
+      if (ref.exc == BADREG) { st.add("undefined_quantity_skipped"); n++; continue; }
+      if (!same_val(used, ref))
+        return Verdict::fail(fmt("C04:%s:adj.%s:%s", used.exc != ref.exc ? "throw-differs" : "value-differs", s.op.c_str(), ALG[O.alg]), n,
+                             fmt("Adj %lld (%s, problem %d) answered %s = %s; a fresh Adj asked only that says %s", s.arg(0) % nobj, ALG[O.alg], O.input, s.op.c_str(), used.str().c_str(), ref.str().c_str()));
+    }
+    n++;
+  }
+  return Verdict();
+}
+
 Verdict HistEngine::execute(const Plan& plan, EventLog& log, Stats& st)
 {
   log.line("layer %lld", plan.geti("layer", 1));
   st.add(fmt("layer%lld.runs", plan.geti("layer", 1)));
   st.add("fill." + std::to_string(plan.geti("fill", 0)));
   if (plan.geti("layer", 1) == 3) return histnet::execute(plan, log, st);
+  if (plan.geti("layer", 1) == 2) return exec_adj(plan, log, st);
   return exec_solvers(plan, log, st);
 }
 
@@ -347,12 +450,28 @@ Plan HistEngine::generate(uint64_t seed, uint64_t index, const std::string& tier
   p.seti("fill", FILLS[g.below(4)]);
   p.seti("refill", g.chance(1, 5) ? 1 : 0);
   if (histnet::available() && g.chance(1, 6)) { p.seti("layer", 3); histnet::generate(p, g, tier); return p; }
+  if (g.chance(1, 6)) {
+    p.seti("layer", 2);
+    int nobj = g.chance(3, 4) ? 1 : 2; p.seti("nobj", nobj);
+    p.seti("prob0", (long long)g.below(1u << 30)); p.seti("prob1", (long long)g.below(1u << 30));
+    for (int o = 0; o < nobj; o++) { p.seti("alg" + std::to_string(o), (long long)g.below(4)); if (g.chance(1, 3)) { p.seti("minx" + std::to_string(o), 1 + (long long)g.below(1000)); p.seti("minxk" + std::to_string(o), (long long)g.below(9)); } }
+    int len = (int)g.range(4, 24);
+    static const char* Q[] = {"unk", "res", "ssq", "def", "qxx", "qxx", "qbb", "qbb", "qbb"};
+    for (int i = 0; i < len; i++) {
+      Step s; s.a.push_back((long long)g.below(nobj)); int r = (int)g.below(12);
+      if (r < 2) { s.op = "alg"; s.a.push_back((long long)g.below(4)); }
+      else if (r < 4) { s.op = "set"; s.a.push_back((long long)g.below(2)); s.a.push_back((long long)g.below(1000)); s.a.push_back((long long)g.below(9)); }
+      else { s.op = Q[g.below(9)]; s.a.push_back((long long)g.below(40)); s.a.push_back(g.chance(1, 3) ? s.a.back() : (long long)g.below(40)); }
+      p.steps.push_back(s);
+    }
+    return p;
+  }
   p.seti("layer", 1);
   int nobj = g.chance(2, 3) ? 1 : (int)g.range(2, 3);
   p.seti("nobj", nobj); p.seti("nprob", 2);
   p.seti("prob0", (long long)g.below(1u << 30)); p.seti("prob1", (long long)g.below(1u << 30));
-  int alg0 = (int)g.below(4);
-  for (int o = 0; o < nobj; o++) p.seti("alg" + std::to_string(o), g.chance(1, 2) ? alg0 : (int)g.below(4));
+  int alg0 = (int)g.below(5);
+  for (int o = 0; o < nobj; o++) p.seti("alg" + std::to_string(o), g.chance(1, 2) ? alg0 : (int)g.below(5));
   // client tasks: each a scripted stream of one flavour; the seeded scheduler interleaves them
   struct Task { int obj; int flavour; int left; };
   int ntask = (int)g.range(2, 4);
